@@ -17,6 +17,7 @@ for ns in (0, 1, 2, 3):
     U = 4 * ns + 6
     for e, sh in (('h_set', 'Set(key,value) with 1-byte key/value over an 8-letter alphabet (valid, invalid, separators; present and absent keys)'), ('h_delete', 'Delete(key) with a 1-byte key over the alphabet'),
                   ('h_header_roundtrip', 'ToHeader -> FromHeader')):
+        if e == 'h_header_roundtrip' and ns != 0: continue   # ToHeader -> FromHeader on 1..3 members: no verdict in 1200 s / 28 GB on the final tree (measured) - not registered
         if e == 'h_header_roundtrip': tier = 'thorough'
         QUERIES.append(dict(name='%s_n%d' % (e[2:], ns), harness=tag, entry=e, unwind=U, unwindset=dict(US, verif_mem=60), rec_unwind=3, tier=tier, timeout=1200, mem_gb=28,
                             optional_reach=['Set of a new key on a full list returns an unchanged copy'],
@@ -33,12 +34,13 @@ for L in range(0, 8):
     tier = 'quick' if L in (0, 3, 4) else 'thorough'
     QUERIES.append(dict(name='from_any_header_len%d' % L, harness='c14_any%d' % L, entry='h_from_any_header', unwind=L + 4, unwindset=US, rec_unwind=3, tier=tier, timeout=1200,
                         shape='every header byte string of length %d' % L, optional_reach=[] ))
+    if L == 7: QUERIES.pop()   # FromHeader on every 7-byte header: no verdict in 1200 s (measured) - only the tokenizer query remains at that length
     QUERIES.append(dict(name='tokenizer_len%d' % L, harness='c14_any%d' % L, entry='h_tokenizer', unwind=L + 4, unwindset=US, tier=tier, timeout=1200,
                         shape='every header byte string of length %d' % L))
 def extra_engine(args, work):
     return regex_engine(['ts_key', 'ts_value'], args, work)
 BOUNDS = ['list of 0..3 members with 1-byte keys and values', 'member limit logic at the scaled constant 3 (real value asserted to be 32)',
-          'arbitrary headers of every length 0..7 (quick: 0,3,4), exactly sized buffers', 'regex literals vs grammar: every byte string <= 258 bytes']
-OUTSIDE = ['keys/values longer than one byte in Set/Delete scripts', 'lists longer than 3 members', 'sequences of more than one Set/Delete (each step is checked from an arbitrary valid list of the shape)']
+          'arbitrary headers: FromHeader on every byte string of each length 0..6, the tokenizer on every length 0..7 (quick: 0,3,4), exactly sized buffers', 'regex literals vs grammar: every byte string <= 258 bytes']
+OUTSIDE = ['ToHeader followed by FromHeader on a non-empty list (no verdict in 1200 s / 28 GB; the empty list is decided)', 'keys/values longer than one byte in Set/Delete scripts', 'lists longer than 3 members', 'sequences of more than one Set/Delete (each step is checked from an arbitrary valid list of the shape)']
 TRUSTED = ['std::regex_match implements ECMAScript full match for the literal subset (re2smt.py)', 'grammar: key = (lcalpha/DIGIT) 0*255 keychar | tenant@system as documented in trace_state.h']
 ASSUMPTIONS = ['std::shared_ptr release does not run disposers (TraceState objects are leaked; values, not lifetimes, are the subject)', 'operator new[] allocates a fixed 64 bytes (larger requests are reported); overruns inside the slack are not detected', 'IsValidKeyRegEx/IsValidValueRegEx replaced by tables generated from the real literals']
